@@ -53,16 +53,16 @@ func ruleD13z(c *Ctx) {
 					if !ok || !isIntConst(k) || k.Int64() != 0 {
 						continue
 					}
-					// the guard of *this* division: its non-zero edge lies on every way to the division
+					// the guard of *this* division: the test lies on every way to the division
+					// (two divisions by the same value each have their own)
+					if !gb.Dominates(b) {
+						continue
+					}
 					switch cond.Op {
 					case token.EQL:
-						if edgesDominate(f, []cfgEdge{{gb, 1}}, b) {
-							zeroSucc = gb.Succs[0]
-						}
+						zeroSucc = gb.Succs[0]
 					case token.NEQ:
-						if edgesDominate(f, []cfgEdge{{gb, 0}}, b) {
-							zeroSucc = gb.Succs[1]
-						}
+						zeroSucc = gb.Succs[1]
 					}
 				}
 				if zeroSucc == nil {
